@@ -98,7 +98,7 @@ func runIso(sc IsoScenario, prefix []int, only int) *isoResult {
 	}
 	if sc.Cfg.Lock != "none" {
 		// real mutexes must never block under the cooperative scheduler: instrumented lockers
-		mon := InstallLockMonitor(s, lockedConsts(sc.Cfg.Lock == "multi", sc.Cfg.Conc))
+		mon := InstallLockMonitor(s, lockedSlot(sc.Cfg))
 		defer mon.Uninstall()
 	}
 	sessions := make([]*Session, len(sc.Threads))
